@@ -22,7 +22,7 @@ def fresh_core(sanitize: bool = False) -> Any:
     h = hashlib.sha1(src.read_bytes()).hexdigest()[:12] + ('-asan' if sanitize else '')
     if h in _CORE:
         return _CORE[h]
-    d = Path('/var/tmp') / f'fjv-core-{h}'
+    d = common.run_root() / f'core-{h}'
     d.mkdir(parents=True, exist_ok=True)
     so = d / '_fjcore.so'
     if not so.exists():
